@@ -1,4 +1,189 @@
-import AwModel.Store.Sqlite
-/-! # C04 — placeholder while the frame theorems are being written (no claims yet) -/
+import AwProofs.Lemmas.StoreOpsSqlite
+import AwProofs.Lemmas.StoreOpsMemory
+import AwProofs.Lemmas.StoreOpsPeewee
+import AwProofs.Lemmas.StoreOpsSpec
+/-!
+# C04 — Operations addressed to one bucket never change any other bucket
+
+Property theorems only. `Op D` (`AwProofs/Lemmas/StoreOps.lean`) is the write API as data:
+create / update / delete bucket, insert, insert-many (with upserts), replace, replace-last, delete;
+`B.step s op` is backend `B`'s state after `op` (a rejected operation leaves the state as it was),
+`B.run` its left fold, `B.view` what a client reads back: bucket id ↦ (metadata, events in storage
+order). `B.Inv` is the backend's data invariant; it holds in the empty store and after every step,
+so in every reachable state (`reachable_inv_*`).
+
+Every statement is for ALL operations with ALL arguments: ids of other buckets, ids that never
+existed, missing buckets, events whose instants coincide with events elsewhere, any payload type.
+-/
 namespace AwProofs.C04
+open Aw Aw.Store
+variable {D : Type}
+
+/-! ## Sqlite -/
+
+/-- every step preserves the data invariant -/
+theorem inv_step_sqlite {s : Sqlite.St D} (hI : Sqlite.Inv s) (op : Op D) :
+    Sqlite.Inv (Sqlite.step s op) := Sqlite.inv_step hI op
+
+/-- every state reachable from the empty store satisfies the invariant -/
+theorem reachable_inv_sqlite (ops : List (Op D)) : Sqlite.Inv (Sqlite.run ({} : Sqlite.St D) ops) :=
+  inv_foldl Sqlite.step Sqlite.Inv (fun _ op h => Sqlite.inv_step h op) ops _ Sqlite.inv_init
+
+/-- one operation, any arguments: every bucket other than the addressed one reads back (metadata
+    and events) exactly as before -/
+theorem frame_sqlite {s : Sqlite.St D} (hI : Sqlite.Inv s) (op : Op D) {b' : String}
+    (hb : b' ≠ op.bucket) : Sqlite.view (Sqlite.step s op) b' = Sqlite.view s b' :=
+  Sqlite.only_step hI op b' hb
+
+/-- a whole history that never addresses `b'` leaves `b'` exactly as it was -/
+theorem frame_run_sqlite {s : Sqlite.St D} (hI : Sqlite.Inv s) (ops : List (Op D)) {b' : String}
+    (hb : ∀ op ∈ ops, op.bucket ≠ b') : Sqlite.view (Sqlite.run s ops) b' = Sqlite.view s b' :=
+  frame_foldl Sqlite.view Sqlite.step Sqlite.Inv (fun _ op h => Sqlite.inv_step h op)
+    (fun _ op h => Sqlite.only_step h op) ops s hI b' hb
+
+/-- a rejected operation (the model function answers with an error) changes nothing at all -/
+theorem rejected_unchanged_sqlite (s : Sqlite.St D) (b : String) (x : Err) :
+    (∀ m, Sqlite.createBucket s b m = .error x → Sqlite.step s (.create b m) = s) ∧
+    (∀ u, Sqlite.updateBucket s b u = .error x → Sqlite.step s (.update b u) = s) ∧
+    (Sqlite.deleteBucket s b = .error x → Sqlite.step s (.deleteBucket b) = s) ∧
+    (∀ e, Sqlite.insertOne s b e = .error x → Sqlite.step s (.insert b e) = s) ∧
+    (∀ es, Sqlite.insertMany s b es = .error x → Sqlite.step s (.insertMany b es) = s) := by
+  refine ⟨?_, ?_, ?_, ?_, ?_⟩ <;> intros <;> simp only [Sqlite.step, *]
+
+/-- replace / delete with an id that is not live in the addressed bucket (it may be live in another
+    one) change no bucket at all -/
+theorem foreign_id_noop_sqlite {s : Sqlite.St D} (hI : Sqlite.Inv s) {b : String} {i : Int}
+    (hi : i ∉ Spec.ids (Sqlite.view s) b) (e : Ev D) :
+    Sqlite.view (Sqlite.step s (.replace b i e)) = Sqlite.view s ∧
+    Sqlite.view (Sqlite.step s (.delete b i)) = Sqlite.view s := by
+  constructor
+  · show Sqlite.view (Sqlite.replace s b i e) = _
+    rw [Sqlite.replace_view hI, Spec.replaceId_notLive e hi]
+  · show Sqlite.view (Sqlite.delete s b i).1 = _
+    rw [(Sqlite.delete_view hI (s' := (Sqlite.delete s b i).1) (r := (Sqlite.delete s b i).2) rfl).1,
+      Spec.delete_notLive hi]
+
+/-! ## Memory -/
+
+/-- every step preserves the data invariant -/
+theorem inv_step_memory {s : Memory.St D} (hI : Memory.Inv s) (op : Op D) :
+    Memory.Inv (Memory.step s op) := Memory.inv_step hI op
+
+/-- every state reachable from the empty store satisfies the invariant -/
+theorem reachable_inv_memory (ops : List (Op D)) : Memory.Inv (Memory.run ([] : Memory.St D) ops) :=
+  inv_foldl Memory.step Memory.Inv (fun _ op h => Memory.inv_step h op) ops _ Memory.inv_init
+
+/-- one operation, any arguments: every bucket other than the addressed one reads back exactly as
+    before -/
+theorem frame_memory {s : Memory.St D} (hI : Memory.Inv s) (op : Op D) {b' : String}
+    (hb : b' ≠ op.bucket) : Memory.view (Memory.step s op) b' = Memory.view s b' :=
+  Memory.only_step hI op b' hb
+
+/-- a whole history that never addresses `b'` leaves `b'` exactly as it was -/
+theorem frame_run_memory {s : Memory.St D} (hI : Memory.Inv s) (ops : List (Op D)) {b' : String}
+    (hb : ∀ op ∈ ops, op.bucket ≠ b') : Memory.view (Memory.run s ops) b' = Memory.view s b' :=
+  frame_foldl Memory.view Memory.step Memory.Inv (fun _ op h => Memory.inv_step h op)
+    (fun _ op h => Memory.only_step h op) ops s hI b' hb
+
+/-- a rejected operation changes nothing at all (`create_bucket` never rejects in this backend) -/
+theorem rejected_unchanged_memory (s : Memory.St D) (b : String) (x : Err) :
+    (∀ u, Memory.updateBucket s b u = .error x → Memory.step s (.update b u) = s) ∧
+    (Memory.deleteBucket s b = .error x → Memory.step s (.deleteBucket b) = s) ∧
+    (∀ e, Memory.insertOne s b e = .error x → Memory.step s (.insert b e) = s) ∧
+    (∀ es, Memory.insertMany s b es = .error x → Memory.step s (.insertMany b es) = s) ∧
+    (∀ i e, Memory.replace s b i e = .error x → Memory.step s (.replace b i e) = s) ∧
+    (∀ h e, Memory.replaceLast s b e = .error x → Memory.step s (.replaceLast b h e) = s) ∧
+    (∀ i, Memory.delete s b i = .error x → Memory.step s (.delete b i) = s) := by
+  refine ⟨?_, ?_, ?_, ?_, ?_, ?_, ?_⟩ <;> intros <;> simp only [Memory.step, *]
+
+/-- replace / delete with an id that is not live in the addressed bucket change no bucket at all -/
+theorem foreign_id_noop_memory {s : Memory.St D} (hI : Memory.Inv s) {b : String} {i : Int}
+    (hi : i ∉ Spec.ids (Memory.view s) b) (e : Ev D) :
+    Memory.view (Memory.step s (.replace b i e)) = Memory.view s ∧
+    Memory.view (Memory.step s (.delete b i)) = Memory.view s := by
+  constructor
+  · simp only [Memory.step]
+    cases h : Memory.replace s b i e with
+    | ok s' => simp only; rw [Memory.replace_view hI h, Spec.replaceId_notLive e hi]
+    | error x => rfl
+  · simp only [Memory.step]
+    cases h : Memory.delete s b i with
+    | ok p => obtain ⟨s', r⟩ := p; simp only; rw [(Memory.delete_view hI h).1, Spec.delete_notLive hi]
+    | error x => rfl
+
+/-! ## Peewee -/
+
+/-- every step preserves the data invariant (cache coherence and foreign keys included) -/
+theorem inv_step_peewee {s : Peewee.St D} (hI : Peewee.Inv s) (op : Op D) :
+    Peewee.Inv (Peewee.step s op) := Peewee.inv_step hI op
+
+/-- every state reachable from the empty store satisfies the invariant -/
+theorem reachable_inv_peewee (ops : List (Op D)) : Peewee.Inv (Peewee.run ({} : Peewee.St D) ops) :=
+  inv_foldl Peewee.step Peewee.Inv (fun _ op h => Peewee.inv_step h op) ops _ Peewee.inv_init
+
+/-- one operation, any arguments (any `replace_last` hint included): every bucket other than the
+    addressed one reads back exactly as before -/
+theorem frame_peewee {s : Peewee.St D} (hI : Peewee.Inv s) (op : Op D) {b' : String}
+    (hb : b' ≠ op.bucket) : Peewee.view (Peewee.step s op) b' = Peewee.view s b' :=
+  Peewee.only_step hI op b' hb
+
+/-- a whole history that never addresses `b'` leaves `b'` exactly as it was -/
+theorem frame_run_peewee {s : Peewee.St D} (hI : Peewee.Inv s) (ops : List (Op D)) {b' : String}
+    (hb : ∀ op ∈ ops, op.bucket ≠ b') : Peewee.view (Peewee.run s ops) b' = Peewee.view s b' :=
+  frame_foldl Peewee.view Peewee.step Peewee.Inv (fun _ op h => Peewee.inv_step h op)
+    (fun _ op h => Peewee.only_step h op) ops s hI b' hb
+
+/-- a rejected operation changes nothing at all; neither does a `replace_last` whose hint names no
+    newest event of the bucket -/
+theorem rejected_unchanged_peewee (s : Peewee.St D) (b : String) (x : Err) :
+    (∀ m, Peewee.createBucket s b m = .error x → Peewee.step s (.create b m) = s) ∧
+    (∀ u, Peewee.updateBucket s b u = .error x → Peewee.step s (.update b u) = s) ∧
+    (Peewee.deleteBucket s b = .error x → Peewee.step s (.deleteBucket b) = s) ∧
+    (∀ e, Peewee.insertOne s b e = .error x → Peewee.step s (.insert b e) = s) ∧
+    (∀ es, Peewee.insertMany s b es = .error x → Peewee.step s (.insertMany b es) = s) ∧
+    (∀ i e, Peewee.replace s b i e = .error x → Peewee.step s (.replace b i e) = s) ∧
+    (∀ h e, Peewee.replaceLast s b h e = .error x → Peewee.step s (.replaceLast b h e) = s) ∧
+    (∀ h e, Peewee.replaceLast s b h e = .ok none → Peewee.step s (.replaceLast b h e) = s) ∧
+    (∀ i, Peewee.delete s b i = .error x → Peewee.step s (.delete b i) = s) := by
+  refine ⟨?_, ?_, ?_, ?_, ?_, ?_, ?_, ?_, ?_⟩ <;> intros <;> simp only [Peewee.step, *]
+
+/-- replace with an id that is not live in the addressed bucket is rejected, delete of such an id
+    removes nothing: no bucket changes -/
+theorem foreign_id_noop_peewee {s : Peewee.St D} (hI : Peewee.Inv s) {b : String} {i : Int}
+    (hi : i ∉ Spec.ids (Peewee.view s) b) (e : Ev D) :
+    Peewee.view (Peewee.step s (.replace b i e)) = Peewee.view s ∧
+    Peewee.view (Peewee.step s (.delete b i)) = Peewee.view s := by
+  constructor
+  · simp only [Peewee.step]
+    cases h : Peewee.replace s b i e with
+    | ok s' => exact absurd (Peewee.replace_view hI h).1 hi
+    | error x => rfl
+  · simp only [Peewee.step]
+    cases h : Peewee.delete s b i with
+    | ok p => obtain ⟨s', r⟩ := p; simp only; rw [(Peewee.delete_view hI h).1, Spec.delete_notLive hi]
+    | error x => rfl
+
+/-! ## the reference model itself -/
+
+/-- a history of the reference list model leaves every bucket it never addresses as it was -/
+theorem frame_spec {k : Kind} {v v' : View D} {ops : List (Op D)} (h : SpecRun k v ops v')
+    {b' : String} (hb : ∀ op ∈ ops, op.bucket ≠ b') : v' b' = v b' := h.frame hb
+
+/-! ## non-vacuity: concrete two-bucket states with interleaved ids and coinciding instants -/
+
+/-- Sqlite: replacing in "a" with the id of an event of "b" leaves "b" (and here "a") untouched -/
+example : Sqlite.view (Sqlite.step Sqlite.exS (.replace "a" 2 Sqlite.exEv)) "b" =
+    some (default, [⟨some 2, 10, 2, ()⟩]) :=
+  frame_sqlite Sqlite.exS_inv (.replace "a" 2 Sqlite.exEv) (by decide)
+
+example : Sqlite.view (Sqlite.step Sqlite.exS (.deleteBucket "a")) "b" = Sqlite.view Sqlite.exS "b" :=
+  frame_sqlite Sqlite.exS_inv (.deleteBucket "a") (by decide)
+
+example : Memory.view (Memory.step Memory.exSt (.delete "a" 1)) "b" = some (Memory.exMeta, Memory.exEvs) :=
+  frame_memory Memory.exSt_inv (.delete "a" 1) (by decide)
+
+example : Peewee.view (Peewee.step Peewee.Example.s0 (.insert "b" { Peewee.Example.e0 with id := some 1 }))
+    "a" = some (Peewee.Example.m0, [⟨some 1, 10, 5, 7⟩, ⟨some 3, 10, 1, 9⟩]) :=
+  frame_peewee Peewee.Example.inv0 _ (by decide)
+
 end AwProofs.C04
